@@ -42,6 +42,9 @@ META = {
 TYPES = ['TA', 'TB', 'TC', 'TD', 'TE']
 
 
+SECTIONS = ('bonds', 'angles', 'dihedrals', 'constraints')
+
+
 def mask_key(types4, mask):
     return tuple('X' if m else t for t, m in zip(types4, mask))
 
@@ -52,8 +55,8 @@ def gen_case(rng, forced=None):
     natoms = rng.randint(4, 7)
     atoms = [rng.choice(types) for _ in range(natoms)]
     case = {'types': types, 'atoms': atoms, 'n_inst': rng.randint(1, 4), 'defines': {}, 'comb': rng.choice([1, 2]),
-            'genpairs': rng.choice(['yes', 'no']), 'tables': {'bonds': [], 'angles': [], 'dihedrals': []},
-            'inters': {'bonds': [], 'angles': [], 'dihedrals': []}, 'nonbond': []}
+            'genpairs': rng.choice(['yes', 'no']), 'tables': {'bonds': [], 'angles': [], 'dihedrals': [], 'constraints': []},
+            'inters': {'bonds': [], 'angles': [], 'dihedrals': [], 'constraints': []}, 'nonbond': []}
     if rng.random() < 0.5:
         case['defines'] = {'gb_1': ['0.153', '7150000'], 'ga_2': ['109.5', '520.0']}
     # interactions
@@ -70,8 +73,20 @@ def gen_case(rng, forced=None):
             else:
                 params = [func]
             case['inters'][sec].append({'idx': idx, 'params': params})
+    # constraints: own section and own type table; often over the same type pair as a bond
+    for _ in range(rng.randint(0, 2)):
+        if case['inters']['bonds'] and rng.random() < 0.6:
+            b = rng.choice(case['inters']['bonds'])
+            want = [atoms[i] for i in b['idx']]
+            cands = [(i, j) for i in range(natoms) for j in range(natoms) if i != j and [atoms[i], atoms[j]] == want and [i, j] != b['idx']]
+            idx = list(rng.choice(cands)) if cands else rng.sample(range(natoms), 2)
+        else:
+            idx = rng.sample(range(natoms), 2)
+        if any(sorted(o['idx']) == sorted(idx) for o in case['inters']['constraints']):
+            continue
+        case['inters']['constraints'].append({'idx': idx, 'params': ['1'] if rng.random() < 0.8 else ['1', f"{rng.uniform(0.1, 0.5):.3f}"]})
     # tables: for each parameterless interaction decide how it is covered
-    for sec, n in (('bonds', 2), ('angles', 3), ('dihedrals', 4)):
+    for sec, n in (('bonds', 2), ('angles', 3), ('dihedrals', 4), ('constraints', 2)):
         keys = []
         for it in case['inters'][sec]:
             if len(it['params']) != 1:
@@ -92,8 +107,11 @@ def gen_case(rng, forced=None):
         rng.shuffle(keys)
         for k in keys:
             nterms = rng.choice([1, 1, 2, 3]) if sec == 'dihedrals' else 1
-            func = {'bonds': '1', 'angles': '2', 'dihedrals': '9'}[sec]
+            func = {'bonds': '1', 'angles': '2', 'dihedrals': '9', 'constraints': '1'}[sec]
             for t in range(nterms):
+                if sec == 'constraints':
+                    case['tables'][sec].append({'key': list(k), 'params': [func, f"{rng.uniform(0.1, 0.5):.3f}"]})
+                    continue
                 case['tables'][sec].append({'key': list(k), 'params': [func, f"{rng.uniform(0, 180):.2f}", f"{rng.uniform(1, 9):.2f}"] +
                                             ([str(t + 1)] if sec == 'dihedrals' else [])})
     for a, b in itertools.combinations_with_replacement(types, 2):
@@ -114,16 +132,16 @@ def top_of(case):
         out.append('[ nonbond_params ]')
         for a, b, x, y in case['nonbond']:
             out.append(f"{a} {b} 1 {x} {y}")
-    for sec in ('bonds', 'angles', 'dihedrals'):
-        if case['tables'][sec]:
+    for sec in ('bonds', 'angles', 'dihedrals', 'constraints'):
+        if case['tables'].get(sec):
             out.append(f"[ {sec[:-1]}types ]")
             for row in case['tables'][sec]:
                 out.append(' '.join(row['key']) + ' ' + ' '.join(row['params']))
     out += ['[ moleculetype ]', 'MOL 1', '[ atoms ]']
     for i, t in enumerate(case['atoms']):
         out.append(f"{i + 1} {t} 1 RES A{i} {i + 1} 0.0 12.0")
-    for sec in ('bonds', 'angles', 'dihedrals'):
-        if case['inters'][sec]:
+    for sec in ('bonds', 'angles', 'dihedrals', 'constraints'):
+        if case['inters'].get(sec):
             out.append(f"[ {sec} ]")
             for it in case['inters'][sec]:
                 out.append(' '.join(str(i + 1) for i in it['idx']) + ' ' + ' '.join(it['params']))
@@ -148,7 +166,7 @@ def run_impl(case):
     inst = []
     for mol in top.molecules:
         d = {}
-        for sec in ('bonds', 'angles', 'dihedrals'):
+        for sec in SECTIONS:
             d[sec] = [([int(a) for a in it.atoms], [str(x) for x in it.parameters]) for it in mol.molecule.interactions.get(sec, [])]
         inst.append(d)
     nb = sorted((tuple(sorted(k)) if len(k) == 2 else (list(k)[0], list(k)[0])) + (float(v['nb1']), float(v['nb2']))
@@ -169,7 +187,7 @@ Definition section (is_dih : bool) (d : list (string * list string)) (t : table)
 def coq_section(case, sec):
     # table grouped by key in first-definition order
     tbl, order = {}, []
-    for row in case['tables'][sec]:
+    for row in case['tables'].get(sec, []):
         k = tuple(row['key'])
         if k not in tbl:
             tbl[k] = []
@@ -177,7 +195,7 @@ def coq_section(case, sec):
         tbl[k].append(row['params'])
     t = "[" + "; ".join(f"({lit(list(k))}, {lit(tbl[k])})" for k in order) + "]"
     inters = "[" + "; ".join(
-        f"Build_inter {lit(it['idx'])} {lit([case['atoms'][i] for i in it['idx']])} {lit(it['params'])}" for it in case['inters'][sec]) + "]"
+        f"Build_inter {lit(it['idx'])} {lit([case['atoms'][i] for i in it['idx']])} {lit(it['params'])}" for it in case['inters'].get(sec, [])) + "]"
     d = "[" + "; ".join(f"({lit(k)}, {lit(v)})" for k, v in case['defines'].items()) + "]"
     return f"section {lit(sec == 'dihedrals')} {d} {t} {inters}"
 
@@ -187,11 +205,11 @@ def spec_judge(case, out):
     bad = []
     if 'error' in out:
         return bad
-    for sec, n in (('bonds', 2), ('angles', 3), ('dihedrals', 4)):
+    for sec, n in (('bonds', 2), ('angles', 3), ('dihedrals', 4), ('constraints', 2)):
         tbl = {}
-        for row in case['tables'][sec]:
+        for row in case['tables'].get(sec, []):
             tbl.setdefault(tuple(row['key']), []).append(row['params'])
-        for it in case['inters'][sec]:
+        for it in case['inters'].get(sec, []):
             if len(it['params']) != 1:
                 continue
             ts = tuple(case['atoms'][i] for i in it['idx'])
@@ -224,7 +242,7 @@ def spec_judge(case, out):
 def compare_case(ctx, case, out, res):
     """res: three model sections"""
     diffs = []
-    model_err = [s for s, r in zip(('bonds', 'angles', 'dihedrals'), res) if not r[0]]
+    model_err = [s for s, r in zip(SECTIONS, res) if not r[0]]
     if 'error' in out:
         if not model_err or out['error'] != 'OSError':
             diffs.append(f"impl raised {out['error']} ({out.get('msg')}), model error sections {model_err}")
@@ -232,7 +250,7 @@ def compare_case(ctx, case, out, res):
     if model_err:
         diffs.append(f"model rejects sections {model_err}, impl accepted")
         return diffs
-    for sec, r in zip(('bonds', 'angles', 'dihedrals'), res):
+    for sec, r in zip(SECTIONS, res):
         model = [([int(a) for a in atoms], list(params)) for atoms, params in r[1]]
         for k, inst in enumerate(out['instances']):
             if inst[sec] != model:
@@ -349,7 +367,7 @@ def run(ctx):
     outs = [run_impl(c) for c in cases]
     exprs = []
     for c in cases:
-        exprs.append("[" + "; ".join(coq_section(c, s) for s in ('bonds', 'angles', 'dihedrals')) + "]")
+        exprs.append("[" + "; ".join(coq_section(c, s) for s in SECTIONS) + "]")
     try:
         res = core.coq_eval_cases(ctx, 'types', PRELUDE, exprs, chunk=100)
     except core.CoqEvalError as exc:
